@@ -28,6 +28,21 @@ TARGETS = [
     ("radioactivedecay/nuclide.py", "Nuclide", "branching_fractions", "Model/Queries.v (delegation)"),
     ("radioactivedecay/nuclide.py", "Nuclide", "decay_modes", "Model/Queries.v (delegation)"),
     ("radioactivedecay/nuclide.py", "Nuclide", "atomic_mass", "Model/Queries.v (delegation)"),
+    ("radioactivedecay/inventory.py", "AbstractInventory", "__init__", "Model/Inventory.v construct"),
+    ("radioactivedecay/inventory.py", "AbstractInventory", "_parse_nuclides", "Model/Inventory.v parse_keys"),
+    ("radioactivedecay/inventory.py", "AbstractInventory", "_check_values", "Model/Inventory.v check_values"),
+    ("radioactivedecay/inventory.py", "AbstractInventory", "add", "Model/Inventory.v m_add"),
+    ("radioactivedecay/inventory.py", "AbstractInventory", "subtract", "Model/Inventory.v m_subtract"),
+    ("radioactivedecay/inventory.py", "AbstractInventory", "__add__", "Model/Inventory.v op_add"),
+    ("radioactivedecay/inventory.py", "AbstractInventory", "__sub__", "Model/Inventory.v op_sub"),
+    ("radioactivedecay/inventory.py", "AbstractInventory", "__mul__", "Model/Inventory.v op_mul"),
+    ("radioactivedecay/inventory.py", "AbstractInventory", "__rmul__", "Model/Inventory.v op_mul"),
+    ("radioactivedecay/inventory.py", "AbstractInventory", "__truediv__", "Model/Inventory.v op_div"),
+    ("radioactivedecay/inventory.py", "AbstractInventory", "remove", "Model/Inventory.v m_remove (dispatch root)"),
+    ("radioactivedecay/inventory.py", "AbstractInventory", "_", "Model/Inventory.v m_remove / m_remove_list (registered variants)"),
+    ("radioactivedecay/inventory.py", "InventoryHP", "__init__", "Model/Inventory.v construct (normalise = nsimplify)"),
+    ("radioactivedecay/utils.py", None, "add_dictionaries", "Model/Inventory.v add_dictionaries"),
+    ("radioactivedecay/utils.py", None, "sort_dictionary_alphabetically", "Model/Inventory.v d_sort"),
     ("radioactivedecay/inventory.py", "AbstractInventory", "half_lives", "Model/Queries.v (delegation)"),
     ("radioactivedecay/inventory.py", "AbstractInventory", "progeny", "Model/Queries.v (delegation)"),
     ("radioactivedecay/inventory.py", "AbstractInventory", "branching_fractions", "Model/Queries.v (delegation)"),
